@@ -53,26 +53,33 @@ def endsOperand : Tok → Bool
   | .sym .rparen | .sym .rbrack => true
   | _ => false
 
-/-- number-like token at a digit or at `.digit` -/
+/-- decimal or integer: `[0-9]+\.[0-9]*`, `[0-9]*\.[0-9]+`, `\d+` (in this order) -/
+def scanNum2 (cs : List Char) : Tok × List Char :=
+  let d1 := cs.takeWhile isDigit
+  let r1 := cs.dropWhile isDigit
+  match r1 with
+  | '.' :: r2 =>
+    let d2 := r2.takeWhile isDigit
+    let r3 := r2.dropWhile isDigit
+    if d1.isEmpty && d2.isEmpty then (.sym .dot, r2)      -- not reached: callers check
+    else (.dec (natOfDigitChars (d1 ++ d2)) (-(d2.length : Int)) (!d1.isEmpty), r3)
+  | _ => (.int (natOfDigitChars d1), r1)
+
+/-- what follows four digits when the text is a date: `-dd-dd` -/
+def dateTail : List Char → Option (Char × Char × Char × Char × List Char)
+  | c4 :: e :: f :: c7 :: g :: h :: rest =>
+    if c4 == '-' && c7 == '-' && isDigit e && isDigit f && isDigit g && isDigit h then some (e, f, g, h, rest) else none
+  | _ => none
+
+/-- number-like token at a digit or at `.digit`: a date `\d{4}-\d{2}-\d{2}` is tried first
+    (the digit run must be exactly four long: a fifth digit is not a `-`) -/
 def scanNumber (cs : List Char) : Tok × List Char :=
-  -- date: \d{4}-\d{2}-\d{2}
-  match cs with
-  | a :: b :: c :: d :: '-' :: e :: f :: '-' :: g :: h :: rest =>
-    if isDigit a && isDigit b && isDigit c && isDigit d && isDigit e && isDigit f && isDigit g && isDigit h then
-      (.date (natOfDigitChars [a, b, c, d]) (natOfDigitChars [e, f]) (natOfDigitChars [g, h]), rest)
-    else scanNum2 cs
-  | _ => scanNum2 cs
-where
-  scanNum2 (cs : List Char) : Tok × List Char :=
-    let d1 := cs.takeWhile isDigit
-    let r1 := cs.dropWhile isDigit
-    match r1 with
-    | '.' :: r2 =>
-      let d2 := r2.takeWhile isDigit
-      let r3 := r2.dropWhile isDigit
-      if d1.isEmpty && d2.isEmpty then (.sym .dot, r2)      -- not reached: callers check
-      else (.dec (natOfDigitChars (d1 ++ d2)) (-(d2.length : Int)) (!d1.isEmpty), r3)
-    | _ => (.int (natOfDigitChars d1), r1)
+  let d1 := cs.takeWhile isDigit
+  if d1.length == 4 then
+    match dateTail (cs.dropWhile isDigit) with
+    | some (e, f, g, h, rest) => (.date (natOfDigitChars d1) (natOfDigitChars [e, f]) (natOfDigitChars [g, h]), rest)
+    | none => scanNum2 cs
+  else scanNum2 cs
 
 /-- `inPh`: a `%(` has been read and its `)s` not yet -/
 def lexLoop : Nat → Bool → Option Tok → List Char → List Tok → Option (List Tok)
